@@ -189,6 +189,10 @@ def seg_of(an, entry):
     if k != w:
         return None, None, "stride %d differs from access width %d" % (k, w)
     info = an.loop_atom_info[a]
+    if info.get("step", 1) != 1:
+        return None, None, "the loop counter advances by %d per iteration (elements are skipped)" % info["step"]
+    if info.get("hi") is None:
+        return None, None, "no upper bound known for the loop counter"
     rest = ex - Aff(0, {a: k})
     return rest + info["lo"].scale(k), rest + info["hi"].scale(k) + w, None
 
